@@ -89,7 +89,10 @@ class Ctx:
         shutil.copy(os.path.join(SPECS, cfg), os.path.join(d, "run.cfg"))
         for src, dst in extra_files:
             shutil.copy(src, os.path.join(d, dst))
-        cmd = ["java", "-XX:+UseParallelGC", "-Xss512m", "-Xmx" + heap]
+        # TLC creates an (empty) tlc-* directory in java.io.tmpdir per run: keep it
+        # inside the scratch directory of the check instead of littering /tmp.
+        os.makedirs(os.path.join(d, "jtmp"), exist_ok=True)
+        cmd = ["java", "-Djava.io.tmpdir=" + os.path.join(d, "jtmp"), "-XX:+UseParallelGC", "-Xss512m", "-Xmx" + heap]
         if java_opts:
             cmd += java_opts
         cmd += ["-cp", TLA_JAR, "tlc2.TLC", "-metadir", os.path.join(d, "meta"),
